@@ -222,7 +222,7 @@ func (x *Exec) zeroOf(t types.Type) Term {
 	case *types.Slice:
 		return nilSlice
 	case *types.Array:
-		return Term{fmt.Sprintf("((as const %s) %s)", s, x.zeroOf(u.Elem()).S), s}
+		return x.constArray(s, x.zeroOf(u.Elem()))
 	case *types.Map, *types.Chan:
 		return IntConst(0)
 	case *types.Signature:
@@ -367,4 +367,17 @@ func (x *Exec) boxFn(s Sort) (string, string) {
 	bf, uf := "box_"+m, "unbox_"+m
 	x.sc.Decl("box:"+m, fmt.Sprintf("(declare-fun %s (%s) Box)\n(declare-fun %s (Box) %s)\n(assert (forall ((v %s)) (! (= (%s (%s v)) v) :pattern ((%s v)))))", bf, s, uf, s, s, uf, bf, bf))
 	return bf, uf
+}
+
+// constArray: the array whose every element is v. (as const ...) needs a
+// value (cvc5 rejects uninterpreted constants such as string literals inside
+// it), so non-value elements get a named array with a defining axiom.
+func (x *Exec) constArray(arrSort Sort, v Term) Term {
+	if !strings.Contains(v.S, "strlit_") && !strings.Contains(v.S, "f64_zero") && !strings.Contains(v.S, "fn_nil") {
+		return Term{fmt.Sprintf("((as const %s) %s)", arrSort, v.S), arrSort}
+	}
+	name := "constarr_" + hashStr(string(arrSort)+v.S)
+	idx := arrayIdxSort(arrSort)
+	x.sc.Decl("constarr:"+name, fmt.Sprintf("(declare-const %s %s)\n(assert (forall ((i %s)) (! (= (select %s i) %s) :pattern ((select %s i)))))", name, arrSort, idx, name, v.S, name))
+	return Term{name, arrSort}
 }
